@@ -17,6 +17,15 @@ mech = anch.get("mechanism") or []
 if mech:
     atxt += "; mechanisms: " + "; ".join("%s (%s)" % (m.get("name"), m.get("where")) for m in mech)
 t = open(os.path.join(root, "lib", "seed_prompt.md")).read()
+import glob
+prev = []
+for f in sorted(glob.glob(os.path.join(root, "seeded", pid + "-*", "meta.json"))):
+    m = json.load(open(f))
+    prev.append("- " + " ".join(m["breaks"].strip().lstrip("#").split())[:260])
+avoid = ""
+if prev and start > 1:
+    avoid = ("\n\nChanges of the following kinds have ALREADY been made by others; yours must hit other mechanisms, "
+             "other code sites or other corners of the property (do not vary these):\n\n" + "\n".join(prev) + "\n")
 stmt = d["statement"] + "\n> \n> Quantified " + d.get("quantifier", {}).get("text", "")
 print(t.replace("@WT@", wt).replace("@ID@", pid).replace("@TITLE@", d["title"]).replace("@STATEMENT@", stmt)
-       .replace("@ANCHORS@", atxt).replace("@RANGE@", "%d..%d" % (start, start + int(n) - 1)).replace("@N@", n))
+       .replace("@ANCHORS@", atxt).replace("@RANGE@", "%d..%d" % (start, start + int(n) - 1)).replace("@N@", n).replace("@AVOID@", avoid))
